@@ -10,21 +10,30 @@ CONSTANT Tier
 Quick == Tier = "quick"
 
 Goods == {0, 1, 3}
+\* long lists of good tokens (per-token resources must be given back: 600 is past half the usual
+\* descriptor limit of 1024)
+ManyGood == 600
 Bads == IF Quick THEN {0, 1, 2, 255, 256, 257, 512} ELSE 0..520
 ListOf(g, b, order) ==
   CASE order = "gb" -> [i \in 1..(g + b) |-> i <= g]
     [] order = "bg" -> [i \in 1..(g + b) |-> i > b]
     [] OTHER -> [i \in 1..(g + b) |-> IF i <= 2 * (IF g < b THEN g ELSE b) THEN i % 2 = 0 ELSE (g > b)]
 TokenLists == { ListOf(g, b, o) : g \in Goods, b \in Bads, o \in {"gb", "bg", "alt"} }
+              \cup { ListOf(ManyGood, b, "gb") : b \in {0, 1} }
 MCSpec == VSpec(TokenLists)
 
 \* ---- cells for the tool runner
 KOct == OctKey(48, "a", "HS384", NONE)
 KOctNoAlg == OctKey(32, "a", NONE, NONE)
+\* out: what the tool is asked to print - "q" quiet, "plain" neither -q nor -v, "v" verbose,
+\* "vp" verbose through a --print command.  The exit status does not depend on it.
+OutCells ==
+  { [op |-> "ToolVerify", key |-> KOct, alg |-> NONE, good |-> g, bad |-> b, mode |-> m, order |-> "gb", out |-> o] :
+      g \in {1, 3, ManyGood}, b \in {0, 2}, m \in {"argv", "stdin"}, o \in {"plain", "v", "vp"} }
 VerifyCells ==
-  { [op |-> "ToolVerify", key |-> KOct, alg |-> NONE, good |-> g, bad |-> b, mode |-> m, order |-> o] :
+  { [op |-> "ToolVerify", key |-> KOct, alg |-> NONE, good |-> g, bad |-> b, mode |-> m, order |-> o, out |-> "q"] :
       g \in Goods, b \in (IF Quick THEN Bads ELSE {0, 1, 2, 3, 254, 255, 256, 257, 258, 511, 512, 513, 520} \cup {x \in 0..520 : x % 7 = 0}),
-      m \in {"argv", "stdin", "stdin-nonl"}, o \in {"gb", "alt"} } \ { c \in { [op |-> "ToolVerify", key |-> KOct, alg |-> NONE, good |-> 0, bad |-> 0, mode |-> m, order |-> o] : m \in {"argv", "stdin", "stdin-nonl"}, o \in {"gb", "alt"} } : TRUE }
+      m \in {"argv", "stdin", "stdin-nonl"}, o \in {"gb", "alt"} } \ { c \in { [op |-> "ToolVerify", key |-> KOct, alg |-> NONE, good |-> 0, bad |-> 0, mode |-> m, order |-> o, out |-> "q"] : m \in {"argv", "stdin", "stdin-nonl"}, o \in {"gb", "alt"} } : TRUE }
 RtKeys == { <<OctKey(32, "a", NONE, NONE), "HS256">>, <<OctKey(64, "a", "HS512", NONE), NONE>>,
             <<AsymKey("rsa2048a", 1, NONE, NONE), "RS256">>, <<AsymKey("rsa2048a", 1, "PS256", NONE), NONE>>,
             <<AsymKey("p256a", 1, NONE, NONE), "ES256">>, <<AsymKey("p384a", 1, "ES384", NONE), NONE>>,
@@ -45,7 +54,7 @@ MultiCells ==
   { [op |-> "ToolKeyConvMulti", keys |-> [i \in 1..4 |-> MK[p[i]]]] : p \in Perms4 }
   \cup { [op |-> "ToolKeyConvMulti", keys |-> <<MK[a], MK[b]>>] : a \in 1..4, b \in 1..4 }
   \cup { [op |-> "ToolKeyConvMulti", keys |-> <<OctKey(32, "a", NONE, NONE), OctKey(64, "b", NONE, NONE), AsymKey("p384a", 1, NONE, NONE), OctKey(100, "a", NONE, NONE)>>] }
-Cells == VerifyCells \cup RoundTripCells \cup KeyConvCells \cup MultiCells
+Cells == VerifyCells \cup OutCells \cup RoundTripCells \cup KeyConvCells \cup MultiCells
 
 Emit == (pos = 1 /\ status = Running /\ vtoks = ListOf(0, 0, "gb")) =>
           \A c \in Cells : PrintT(<<"SCRIPT", ToJson(<<c>>)>>)
